@@ -1118,6 +1118,10 @@ class XsdGroup(XsdComponent, MutableSequence[ModelParticleType],
         over_max_depth = context.max_depth is not None and context.max_depth <= context.level
         model = self.get_model_visitor()
 
+        if not self._group and self.model == 'choice' and self.min_occurs:
+            reason = _("an empty 'choice' group with minOccurs > 0 cannot validate any content")
+            context.validation_error(validation, self, reason, elem)
+
         content: Iterable[Any]
         if not obj.content:
             content = []
